@@ -1,6 +1,8 @@
 From Coq Require Import extraction.Extraction extraction.ExtrOcamlBasic.
-From TU Require Import Base C04_Model.
+From TU Require Import Base C04_Model MsgPack_Model C04_File.
+(* exact on the eleven fields; BPE: the bytes of the merge file and the real loader's reading of them (fields
+   11, 12 of the implementation output) must be what the model reads / would write (C04_File.v) *)
 Definition run := run_C04.
-Definition check := check_C04.
-Definition agree (inp m i : val) : bool := val_eqb m i.
+Definition check := check_C04f.
+Definition agree (inp m i : val) : bool := agree_C04f inp m i.
 Extraction "model.ml" run check agree.
